@@ -595,6 +595,11 @@ argument kind incl. `[]`, `()`, `{}`; results; errors; a batch; under all four c
 model's encoders produce - members compared as sets, refusals by their code -/
 theorem facts_encode_table : Facts.C04.encodeTable.all EncRow.holds = true := by decide +kernel
 
+/-- the real `detect_protocol` chose, on every probe message (all combinations of the members it
+looks at, non-objects, batches mixing the classes), the class the model's `detectProtocol` chooses -/
+theorem facts_detect_table :
+    Facts.C04.detectTable.all (fun r => some (detectProtocol r.1) == r.2) = true := by decide +kernel
+
 /-- the failing outcomes of `json.loads(message.decode())` C04 is concerned with (invalid UTF-8,
 invalid JSON) were turned into PARSE_ERROR by the real decoder (the resource-limit outcomes are
 C05's) -/
